@@ -39,7 +39,7 @@ def main (args : List String) : IO UInt32 := do
   | ["catalog"] => loop stdin stdout Driver.MetaMode.cstep ({} : Driver.MetaMode.CSt)
   | ["queue"] => loop stdin stdout Driver.QueueMode.step ({} : Driver.QueueMode.St)
   | ["heap"] => loop stdin stdout Driver.QueueMode.hstep ([] : Queue.Heap)
-  | ["wire"] => loop stdin stdout Driver.WireMode.step ()
+  | ["wire"] => loop stdin stdout Driver.WireMode.step []
   | ["gmsg"] => loop stdin stdout Driver.GmsgMode.step ()
   | ["repl"] => loop stdin stdout Driver.ReplMode.step ({} : Driver.ReplMode.St)
   | ["conc"] => loop stdin stdout Driver.ConcMode.step ({} : Driver.ConcMode.St)
